@@ -17,24 +17,27 @@ RULE = ('family cluster (L3): generated clusters (2-4 instances) with generated 
         'distributions, actions) tuples')
 ASSUMPTIONS = ['evaluated only when the cluster settles (OPERATION everywhere without jobs) with the same Master',
                'an application that has jobs planned at the Master when the loss is acknowledged is left to those jobs',
-               'the running failure strategies RESTART / SHUTDOWN (whole Supvisors) are not generated here']
+               'RESTART / SHUTDOWN running failure strategies: the Master that everybody agreed on at the crash, in '
+               'OPERATION / CONCILIATION and alive for 3 more ticks, must publish RESTARTING / SHUTTING_DOWN']
 FLOORS = {'quick': {'losses_acknowledged_by_master': 150, 'applications_evaluated_after_loss': 100,
                     'losses_acknowledged_while_jobs_in_progress': 20, 'handler_calls': 150,
                     'handler_set_comparisons': 2000, 'handler_dispatches_checked': 150, 'handler_promotions': 30,
+                    'supvisors_strategy_crashes_evaluated': 4,
                     'handler_superseded': 200},
           'thorough': {'losses_acknowledged_by_master': 3000, 'applications_evaluated_after_loss': 2000,
                        'losses_acknowledged_while_jobs_in_progress': 400, 'handler_calls': 3000,
                        'handler_set_comparisons': 40000, 'handler_dispatches_checked': 3000,
+                       'supvisors_strategy_crashes_evaluated': 80,
                        'handler_promotions': 600, 'handler_superseded': 4000}}
 COUNT = {'quick': 640, 'thorough': 12000}
 BUDGET_S = {'quick': 55, 'thorough': 540}
 
 KNOBS = {'n_min': 2, 'n_max': 4, 'keep_master': True,
          'apps': {'n_apps': (2, 3), 'n_progs': (1, 3), 'seq_max': 2, 'startsecs': (1, 9), 'stopwaitsecs': (2, 9),
-                  'managed_p': 0.9, 'autorestart': ('false',), 'identifiers_p': 0.15},
+                  'managed_p': 0.9, 'autorestart': ('false',), 'identifiers_p': 0.15, 'supvisors_failure_p': 0.06},
          'behaviours': ['normal'] * 6 + ['slow_stop', 'slow_stop', 'stubborn'],
          'actions': ['crash', 'crash', 'crash', 'restart', 'start_application', 'stop_application',
-                     'restart_application', 'restart_process', 'kill_process', 'wait'],
+                     'restart_application', 'restart_process', 'kill_process', 'kill_process', 'wait'],
          'n_actions': [1, 2, 3, 4, 5], 'fence': 'false', 'early_p': 0.1, 'gaps': [0.0, 0.05, 0.5, 2.0, 2.0, 5.0, 12.0]}
 
 
